@@ -1,18 +1,23 @@
 import PoxModel.Base.Proto
-import PoxModel.Model.FlowTable
+import PoxModel.Model.MatchV
 import PoxModel.Spec.OF10Match
 /-! Line-protocol driver for C03: evaluates the model (`Model/Match`, `Model/FlowTable`) and, separately, the specification
 (`Spec/OF10Match`) on the inputs the harness also gives to the real code.
+
+Every request carries `"v":[arpLow8, prereqExact, exactSig]`: which of the proposed repairs the code under test has.
 
 * `{"op":"pairs","phdr":P,"port":n,"matches":[{"rec":[13 numbers],"wire":bool},…]}`
     → `{"pm":[wildcards, 12 views (null = wildcarded)], "hdr":[12 spec headers], "res":[[wildcards, matched, specMatched],…]}`
 * `{"op":"subsume","pairs":[{"a":rec,"b":rec,"wire":bool},…]}` → `{"res":[[matchesWith true, Spec.subsumes],…]}`
 * `{"op":"table","entries":[[priority, rec],…],"frames":[{"phdr":P,"port":n},…]}`
     → `{"order":[original index…],"eff":[effective priority…],"exact":[is_exact per original entry…],"lookups":[original index | null…],
-        "spec":[[matchHdr per original entry…] per frame],"rank":[Spec.rank per original entry]}`
+        "spec":[[matchHdr per original entry…] per frame],"rank":[Spec.rankSig per original entry]}`
 
 * `{"op":"tableops","ops":[["add",id,priority,rec,idle_s,hard_s,now_ms] | ["remove",id] | ["rm_match",rec,priority,strict] |
      ["expire",now_ms] | ["lookup",P,port],…]}` → `{"trace":[["t",raised,[ids in table order]] | ["l",id|null],…]}`
+
+* `{"op":"selfflow","phdr":P,"port":n|null,"swport":n,"sf":bool,"blank":[1..12]?}` → `{"m":[wildcards, 12 views],"wire":rec,"m2w":wildcards after
+     unpack,"hit":0|1,"exact":0|1,"spec":0|1}`
 
 `P = {"src","dst","typ","llc":null|[oui|null,ethType],"vlan":null|[id,pcp,ethType],"l3":null|["ip",s,d,proto,tos,frag,l4]|["arp",op,s,d]}`,
 `l4 = null|["p",src,dst]|["i",type,code]`; `rec = [wildcards,in_port,dl_src,dl_dst,dl_vlan,dl_vlan_pcp,dl_type,nw_tos,nw_proto,nw_src,nw_dst,tp_src,tp_dst]`. -/
@@ -55,6 +60,12 @@ def phdrOf (j : J) : Except String PHdr := do
     | _ => bad "vlan")
   pure { src := (← j.nat "src"), dst := (← j.nat "dst"), typ := (← j.nat "typ"), llc := llc, vlan := vlan, l3 := (← l3Of (← j.get "l3")) }
 
+/-- `"v":[arpLow8, prereqExact, exactSig]` — which repairs the code under test has (`Model/MatchV.lean`) -/
+def variantOf (j : J) : Except String Variant := do
+  match ← j.array "v" with
+  | [a, b, c] => pure { arpLow8 := (← a.asBool), prereqExact := (← b.asBool), exactSig := (← c.asBool) }
+  | _ => bad "v: three booleans expected"
+
 def jb (b : Bool) : J := J.num (if b then 1 else 0)
 
 def viewsOf (m : OfMatch) : List J :=
@@ -68,39 +79,42 @@ def hdrList (h : Spec.Headers) : List Nat :=
 def doPairs (j : J) : Except String J := do
   let p ← phdrOf (← j.get "phdr")
   let port ← j.nat "port"
-  let pm := fromPacket p port
+  let v ← variantOf j
+  let pm := v.fromPacket p port
   let h := Spec.headers p port
   let res ← (← j.array "matches").mapM fun mj => do
     let r ← recOf (← mj.get "rec")
-    let m := if (← mj.boolean "wire") then r.ofWire else r
+    let m := if (← mj.boolean "wire") then v.ofWire r else r
     pure (J.arr [J.num m.wildcards, jb (m.matchesWith false pm), jb (Spec.matchHdr r h)])
   pure (J.mk [("pm", J.arr (J.num pm.wildcards :: viewsOf pm)), ("hdr", J.ofNats (hdrList h)), ("res", J.arr res)])
 
 def doSubsume (j : J) : Except String J := do
+  let v ← variantOf j
   let res ← (← j.array "pairs").mapM fun pj => do
     let a ← recOf (← pj.get "a")
     let b ← recOf (← pj.get "b")
     let w ← pj.boolean "wire"
-    let (ma, mb) := if w then (a.ofWire, b.ofWire) else (a, b)
+    let (ma, mb) := if w then (v.ofWire a, v.ofWire b) else (a, b)
     pure (J.arr [jb (ma.matchesWith true mb), jb (Spec.subsumes a b), jb (OfMatch.eqMatch ma mb)])
   pure (J.mk [("res", J.arr res)])
 
 def doTable (j : J) : Except String J := do
+  let v ← variantOf j
   let ents ← (← j.array "entries").mapM fun ej => do
     match ← ej.asArr with
     | [pr, r] => pure ((← pr.asNat), (← recOf r))
     | _ => bad "entry"
   let flows : List Spec.Flow := ents.map fun (pr, r) => { priority := pr, mtch := r }
   -- payload = original index
-  let es : List (Entry Nat) := ents.zipIdx.map fun ((pr, r), i) => { priority := pr, mtch := r.ofWire, data := i }
-  let tbl ← es.foldlM (fun t e => match addEntry? e t with
+  let es : List (Entry Nat) := ents.zipIdx.map fun ((pr, r), i) => { priority := pr, mtch := v.ofWire r, data := i }
+  let tbl ← es.foldlM (fun t e => match addEntryBy? v.effectivePriority e t with
     | some t' => pure t'
     | none => bad "IndexError") ([] : Table Nat)
   let frames ← (← j.array "frames").mapM fun fj => do pure ((← phdrOf (← fj.get "phdr")), (← fj.nat "port"))
-  let lookups := frames.map fun (p, port) => J.ofOptNat ((entryForPacket tbl p port).map (·.data))
+  let lookups := frames.map fun (p, port) => J.ofOptNat ((v.entryForPacket tbl p port).map (·.data))
   let spec := frames.map fun (p, port) => J.arr (flows.map fun f => jb (Spec.matchHdr f.mtch (Spec.headers p port)))
-  pure (J.mk [("order", J.ofNats (tbl.map (·.data))), ("eff", J.ofNats (tbl.map Entry.effectivePriority)),
-              ("exact", J.arr (es.map fun e => jb e.mtch.isExact)), ("lookups", J.arr lookups), ("spec", J.arr spec), ("rank", J.ofNats (flows.map Spec.rank))])
+  pure (J.mk [("order", J.ofNats (tbl.map (·.data))), ("eff", J.ofNats (tbl.map v.effectivePriority)),
+              ("exact", J.arr (es.map fun e => jb (!v.isWildcarded e.mtch))), ("lookups", J.arr lookups), ("spec", J.arr spec), ("rank", J.ofNats (flows.map Spec.rankSig))])
 
 /-- payload of a table entry in `tableops`: identity and the timeout data `remove_expired_entries` looks at (milliseconds) -/
 structure TD where
@@ -114,6 +128,7 @@ def deadAt (now : Nat) (e : Entry TD) : Bool :=
   (e.data.idle > 0 && now - e.data.created > e.data.idle * 1000) || (e.data.hard > 0 && now - e.data.created > e.data.hard * 1000)
 
 def doTableOps (j : J) : Except String J := do
+  let v ← variantOf j
   let ops ← j.array "ops"
   let (_, out) ← ops.foldlM (fun (acc : Table TD × List J) oj => do
     let (tbl, out) := acc
@@ -121,27 +136,52 @@ def doTableOps (j : J) : Except String J := do
     let ids := fun (t : Table TD) => J.ofNats (t.map (·.data.id))
     match a with
     | [J.str "add", id, pr, r, idle, hard, now] =>
-      let e : Entry TD := { priority := (← pr.asNat), mtch := (← recOf r).ofWire,
+      let e : Entry TD := { priority := (← pr.asNat), mtch := v.ofWire (← recOf r),
                             data := { id := (← id.asNat), idle := (← idle.asNat), hard := (← hard.asNat), created := (← now.asNat) } }
-      let (t, raised) := TableOps.step tbl (.add e)
+      let (t, raised) := TableOps.step v.effectivePriority tbl (.add e)
       pure (t, J.arr [J.str "t", jb raised, ids t] :: out)
     | [J.str "remove", id] =>
       let k ← id.asNat
       let i := tbl.findIdx (fun e => e.data.id == k)          -- `tbl.length` when the object is not in the table
-      let (t, raised) := TableOps.step tbl (.removeAt i)
+      let (t, raised) := TableOps.step v.effectivePriority tbl (.removeAt i)
       pure (t, J.arr [J.str "t", jb raised, ids t] :: out)
     | [J.str "rm_match", r, pr, strict] =>
-      let (t, raised) := TableOps.step tbl (.removeMatching (← recOf r).ofWire (← pr.asNat) (← strict.asBool) (fun _ => true))
+      let (t, raised) := TableOps.step v.effectivePriority tbl (.removeMatching (v.ofWire (← recOf r)) (← pr.asNat) (← strict.asBool) (fun _ => true))
       pure (t, J.arr [J.str "t", jb raised, ids t] :: out)
     | [J.str "expire", now] =>
       let n ← now.asNat
-      let (t, raised) := TableOps.step tbl (.expire (deadAt n))
+      let (t, raised) := TableOps.step v.effectivePriority tbl (.expire (deadAt n))
       pure (t, J.arr [J.str "t", jb raised, ids t] :: out)
     | [J.str "lookup", ph, port] =>
-      let hit := (entryForPacket tbl (← phdrOf ph) (← port.asNat)).map (·.data.id)
+      let hit := (v.entryForPacket tbl (← phdrOf ph) (← port.asNat)).map (·.data.id)
       pure (tbl, J.arr [J.str "l", J.ofOptNat hit] :: out)
     | _ => bad "tableops: op") (([] : Table TD), ([] : List J))
   pure (J.mk [("trace", J.arr out.reverse)])
+
+def recList (m : OfMatch) : List Nat :=
+  [m.wildcards, m.inPort, m.dlSrc, m.dlDst, m.dlVlan, m.dlVlanPcp, m.dlType, m.nwTos, m.nwProto, m.nwSrc, m.nwDst, m.tpSrc, m.tpDst]
+
+/-- the flow a controller builds from a packet: `from_packet(p, in_port, spec_frags)`, `pack(flow_mod=True)`, and what the switch
+    makes of it (`unpack(flow_mod=True)`, lookup test against the switch's own `from_packet(spec_frags=True)`, exactness) -/
+def doSelfFlow (j : J) : Except String J := do
+  let p ← phdrOf (← j.get "phdr")
+  let port ← j.optNat "port"
+  let swPort ← j.nat "swport"
+  let sf ← j.boolean "sf"
+  let v ← variantOf j
+  -- `"blank":[field numbers 1..12]`: attributes the controller sets back to `None` before packing
+  let blank ← (match j.get? "blank" with | some b => b.asNats | none => pure [])
+  let o0 := v.extract sf p port
+  let keep := fun (i : Nat) (x : Option Nat) => if blank.contains i then none else x
+  let o : OHeaders := { inPort := keep 1 o0.inPort, dlSrc := keep 2 o0.dlSrc, dlDst := keep 3 o0.dlDst, dlVlan := keep 4 o0.dlVlan,
+                        dlVlanPcp := keep 5 o0.dlVlanPcp, dlType := keep 6 o0.dlType, nwTos := keep 7 o0.nwTos, nwProto := keep 8 o0.nwProto,
+                        nwSrc := keep 9 o0.nwSrc, nwDst := keep 10 o0.nwDst, tpSrc := keep 11 o0.tpSrc, tpDst := keep 12 o0.tpDst }
+  let m := fromHeaders o
+  let wire := packFlowMod m
+  let m2 := v.ofWire wire
+  pure (J.mk [("m", J.arr (J.num m.wildcards :: viewsOf m)), ("wire", J.ofNats (recList wire)), ("m2w", J.num m2.wildcards),
+              ("hit", jb (m2.matchesWith false (v.fromPacket p swPort))), ("exact", jb (!v.isWildcarded m2)),
+              ("spec", jb (Spec.matchHdr wire (Spec.headers p swPort)))])
 
 def handle (j : J) : Except String J := do
   match ← j.string "op" with
@@ -149,6 +189,7 @@ def handle (j : J) : Except String J := do
   | "subsume" => doSubsume j
   | "table" => doTable j
   | "tableops" => doTableOps j
+  | "selfflow" => doSelfFlow j
   | o => bad s!"unknown op {o}"
 
 def main : IO Unit := serve handle
